@@ -336,3 +336,65 @@ func VH_C08_builtin_lenCapArray() {
 	vhAssert(l(&Env{}) == 3 && k(&Env{}) == 3, "len and cap of an array (or pointer to array) are the array length")
 	vhReach("end")
 }
+
+// ---- field selectors: x.f on a struct value, a pointer to a named struct and a pointer to an unnamed struct ----
+
+var vhFieldIndex int
+
+// model of Comp.LookupFieldOrMethod (the xreflect field tables are outside reach): structs have the int32 fields X, Y
+func vhModelLookupFieldOrMethod(c *Comp, t xr.Type, name string) (xr.StructField, bool, xr.Method, bool) {
+	if t.Kind() != r.Struct {
+		return xr.StructField{}, false, xr.Method{}, false
+	}
+	return xr.StructField{Name: name, Type: vhTypeOf(int32(0)), Index: []int{vhFieldIndex}}, true, xr.Method{}, false
+}
+
+// model of Comp.LookupMethod: the harness types have no methods
+func vhModelLookupMethod(c *Comp, t xr.Type, name string) (xr.Method, int) { return xr.Method{}, 0 }
+
+type vhNamedXY struct{ X, Y int32 }
+
+func VH_C08_selectorField() {
+	c := vhBuiltinComp()
+	shape := vhPick("operand: struct value / pointer to named struct / pointer to unnamed struct", 3)
+	x, y := vhI32("x"), vhI32("y")
+	vhFieldIndex = vhPick("field", 2)
+	var e *Expr
+	switch shape {
+	case 0:
+		v := vhNamedXY{x, y}
+		e = exprX1(vhTypeOf(v), func(env *Env) xr.Value { return xr.ValueOf(v) })
+	case 1:
+		p := &vhNamedXY{x, y}
+		e = exprX1(vhTypeOf(p), func(env *Env) xr.Value { return xr.ValueOf(p) })
+	default:
+		p := &struct{ X, Y int32 }{x, y}
+		e = exprX1(vhTypeOf(p), func(env *Env) xr.Value { return xr.ValueOf(p) })
+	}
+	id := &ast.Ident{Name: "p"}
+	c.Binds = map[string]*Bind{"p": &Bind{Lit: Lit{Type: e.Type}, Desc: VarBind.MakeDescriptor(0), Name: "p"}}
+	vhArgExprs = map[ast.Expr]*Expr{id: e}
+	node := &ast.SelectorExpr{X: id, Sel: &ast.Ident{Name: [...]string{"X", "Y"}[vhFieldIndex]}}
+	var fe *Expr
+	failed := false
+	func() {
+		defer func() {
+			if recover() != nil {
+				failed = true
+			}
+		}()
+		fe = c.SelectorExpr(node)
+	}()
+	vhAssert(!failed && fe != nil, "x.f compiles for a struct, a pointer to a named struct and a pointer to an unnamed struct")
+	if failed || fe == nil {
+		return
+	}
+	f, ok := fe.Fun.(func(*Env) int32)
+	vhAssert(ok, "the field expression has the field's type")
+	if !ok {
+		return
+	}
+	want := [...]int32{x, y}[vhFieldIndex]
+	vhAssert(f(&Env{}) == want, "x.f reads the selected field (through the pointer)")
+	vhReach("end")
+}
